@@ -911,10 +911,10 @@ fn process_incoming_text_message<T: Read + Write>(
                                                 Some(("time_ms", what)) => {
                                                     let filtered_msg_index =
                                                         binary_search_by_time_us(
-                                                            1000u64
-                                                                * what
-                                                                    .parse::<u64>()
+                                                            1000u64.saturating_mul(
+                                                                what.parse::<u64>()
                                                                     .unwrap_or_default(),
+                                                            ),
                                                             fc,
                                                             stream,
                                                         );
